@@ -29,6 +29,9 @@ enumeration, no hypotheses other than "the planner produced this plan").
              `C14_rewrite_keeps_table` (identifier rewriting keeps the operand an identifier denotes),
              `C14_obs_non_equality_mapped` (observation, not a deviation from the property: a non-equality
              `m.d > t.d` in the model's ON is mapped as well and its residue is `0 > 0`)
+* catalog    `C14_cat_project_via_metadata`, `C14_cat_model_any_case`, `C14_cat_model_default_project`,
+             `C14_cat_case_invariant` (which operand is a model: every catalog name and every query qualifier is
+             compared in lower case; a project known only through `predictor_metadata` is a database)
 * rows       `C14_1` (GLOBAL: the apply steps of every plan — also inside MapReduceSteps — are, up to order, exactly
              the model operands, one each (`C14_1_nodup`); the input of the apply step of operand `i` is built by
              fetch / sub-select / apply / join steps from exactly the operands to its left, in join order),
@@ -429,6 +432,66 @@ theorem C14_1_plan (q : Query) (steps : List Step) (h : plan q = .ok steps) :
   obtain ⟨ops, w, h1, h2⟩ := plan_planWith q steps h
   exact ⟨ops, h1, rewriteOn_kinds _ _ _ h1, planWith_flow ops w _ _ _ steps h2⟩
 
+/-! ## the catalog: which operand is a model, in every spelling -/
+
+/-- the project of a model is a database of the planner even when it is known ONLY through `predictor_metadata` -/
+theorem C14_cat_project_via_metadata (c : Catalog) (p n : String) (h : (some p, n) ∈ c.models) :
+    lower p ∈ c.databases := by
+  simp only [Catalog.databases, Catalog.modelKeys, List.mem_append, List.mem_cons, List.mem_map]
+  right; right
+  exact ⟨(lower p, lower n), ⟨(some p, n), h, rfl⟩, rfl⟩
+
+/-- a model reference `q.m` is recognised — and routed — whatever the case in which the catalog writes the
+project and the model and the query writes the qualifier and the name -/
+theorem C14_cat_model_any_case (c : Catalog) (p n q m : String) (h : (some p, n) ∈ c.models)
+    (hq : lower q = lower p) (hm : lower m = lower n) (hd : isDigits m = false) :
+    c.isModel [q, m] = true ∧ c.routable [q, m] = true := by
+  constructor
+  · have hk : (lower q, lower m) ∈ c.modelKeys := by
+      simp only [Catalog.modelKeys, List.mem_map]
+      exact ⟨(some p, n), h, by simp [hq, hm]⟩
+    simp [Catalog.isModel, dropVersion, hd, hk]
+  · have := C14_cat_project_via_metadata c p n h
+    simp [Catalog.routable, hq, this]
+
+/-- … and a model without `integration_name` lives in `predictor_namespace` (default `mindsdb`) -/
+theorem C14_cat_model_default_project (c : Catalog) (n q m : String) (h : (none, n) ∈ c.models)
+    (hq : lower q = c.pns) (hm : lower m = lower n) (hd : isDigits m = false) : c.isModel [q, m] = true := by
+  have hk : (lower q, lower m) ∈ c.modelKeys := by
+    simp only [Catalog.modelKeys, List.mem_map]
+    exact ⟨(none, n), h, by simp [hq, hm]⟩
+  simp [Catalog.isModel, dropVersion, hd, hk]
+
+/-- the classification of every operand depends on the catalog only through its lower-cased names: two catalogs
+that differ in the case of integration / project / model names, `predictor_namespace` or `default_namespace`
+classify and route every identifier alike -/
+theorem C14_cat_case_invariant (c c' : Catalog)
+    (hi : c.integrations.map lower = c'.integrations.map lower)
+    (hp : c.projects.map lower = c'.projects.map lower)
+    (hm : c.models.map (fun x => (x.1.map lower, lower x.2)) = c'.models.map (fun x => (x.1.map lower, lower x.2)))
+    (hn : c.predictorNs.map lower = c'.predictorNs.map lower)
+    (hd : c.defaultNs.map lower = c'.defaultNs.map lower) (parts : List String) :
+    c.isModel parts = c'.isModel parts ∧ c.routable parts = c'.routable parts := by
+  have hpns : c.pns = c'.pns := by
+    simp only [Catalog.pns]
+    cases h1 : c.predictorNs <;> cases h2 : c'.predictorNs <;> simp_all
+  have hk : c.modelKeys = c'.modelKeys := by
+    have e : ∀ (d : Catalog), d.modelKeys =
+        (d.models.map (fun x => (x.1.map lower, lower x.2))).map (fun y => (y.1.getD d.pns, y.2)) := by
+      intro d
+      simp only [Catalog.modelKeys, List.map_map]
+      apply List.map_congr_left
+      intro x _
+      obtain ⟨p, n⟩ := x
+      cases p <;> rfl
+    rw [e c, e c', hm, hpns]
+  have hdb : c.databases = c'.databases := by simp only [Catalog.databases, hi, hp, hk]
+  have hds : c.defaultNs.isSome = c'.defaultNs.isSome := by
+    cases h1 : c.defaultNs <;> cases h2 : c'.defaultNs <;> simp_all
+  constructor
+  · simp only [Catalog.isModel, hk, hd]
+  · simp only [Catalog.routable, hdb, hds]
+
 /-- a model cannot be the first thing processed -/
 theorem C14_1_predictor_first (ops : List Operand) (i : Nat) (w : Option E) (u : Option (List (String × String)))
     (st : St) (h : st.stack = []) : processPredictor ops i w u st = .error .notImplemented := by
@@ -588,6 +651,15 @@ example : fetchLim opsW 0 none { q := qRows, useLimit := checkUseLimit opsW qRow
     checkUseLimit opsW qAgg = false ∧
     fetchLim opsW 0 none { q := qAgg, useLimit := checkUseLimit opsW qAgg } = {} := by
   decide
+
+/-- catalog shapes (seeded change C14_8): project `MLProject` known only through predictor_metadata -/
+def catMixed : Catalog :=
+  { integrations := ["Int1", "INT2"], models := [(some "MLProject", "Pred"), (none, "P2")], defaultNs := some "Int1" }
+
+example : catMixed.isModel ["mlproject", "pred"] = true ∧ catMixed.isModel ["MLPROJECT", "PRED", "3"] = true ∧
+    catMixed.isModel ["MindsDB", "p2"] = true ∧ catMixed.isModel ["int1", "pred"] = false ∧
+    catMixed.isModel ["pred"] = false ∧ catMixed.routable ["MLProject", "Pred"] = true ∧
+    catMixed.databases = ["int1", "int2", "mindsdb", "mlproject", "mindsdb"] := by decide
 
 /-! ## non-vacuity -/
 
